@@ -90,8 +90,16 @@ def run_workers(R, cfg, cases, shards=8, timeout=1500):
     def one(chunk):
         p = C.run_impl("impl_io.py", input_obj={"mode": "robust", "cases": [cfg] + chunk}, timeout=timeout)
         if p.returncode != 0:
-            # the worker itself died: that is an observation (crash of the interpreter), not a harness error
-            return [{"worker_crash": p.returncode, "stderr": p.stderr.decode(errors="replace")[-400:]}] * len(chunk)
+            # the worker itself died: that is an observation (crash of the interpreter), not a harness error;
+            # re-run the chunk one case per process to see which input does it
+            if len(chunk) == 1:
+                return [{"worker_crash": p.returncode, "stderr": p.stderr.decode(errors="replace")[-400:]}]
+            res = []
+            for c in chunk:
+                res += one([c])
+            if not any("worker_crash" in r for r in res):
+                res[0] = {"worker_crash": p.returncode, "stderr": "the worker died on the whole chunk but on no single case: " + p.stderr.decode(errors="replace")[-300:]}
+            return res
         return json.loads(p.stdout)
     with ThreadPoolExecutor(shards) as ex:
         outs = list(ex.map(one, chunks))
